@@ -1,14 +1,966 @@
-// Package c16 is the correspondence area of property C16 (stub: the slice is not built yet).
+// Package c16 is the correspondence area of property C16 (targets can be added, removed and re-added cleanly).
+//
+// Two kinds of case lines, both executed on the REAL code:
+//
+//	rr   <cfg> <op>...   a history on a real grpcbridge.ReflectionRouter (WithConnFunc injects construction failures,
+//	                     connections are real *grpc.ClientConn over bufconn to a real gRPC server)
+//	pool <cfg> <op>...   a history on a real grpcadapter.AdaptedClientPool used directly (New / Get / controller Close)
+//
+//	conc <seed> <goroutines> <ops>   goroutines use one real AdaptedClientPool concurrently (see execConc)
+//
+// cfg = p<0|1>r<0|1>: p1 = reflection polling enabled (1s interval), p0 = WithDisabledReflectionPolling;
+// r1 = the target server serves the reflection API, r0 = it does not (every resolution fails).
+//
+// ops (i = name index 0..3, k = index of the k-th successfully issued pool controller):
+//
+//	A<i>o|f|p  router.Add(name_i): connection construction ok | fails | Add is called with a per-target option
+//	R<i>       router.Remove(name_i)
+//	N<i>o|f    pool.New(name_i): construction ok | fails
+//	K<k>       controller_k.Close()
+//	G<i>       pool.Get(name_i); a usable result is kept as the caller's handle for name_i
+//	S<i>       handle_i.Stream(...) (opened and closed again)
+//	C<i>       open an in-flight call on handle_i (a stream on which the server never answers) and keep it
+//
+// output = one token per op, then "w=<resolver poller goroutines> n=<len(targets)> alive=<call ids>" observed
+// after the history, then "leak=<goroutines left>" observed after removing every target / closing every controller.
+// While the injected connection constructor runs it probes pool.Get(name) — the "~a|~u|~n" suffix
+// (absent | usable | present-but-nil) is the pool lookup as seen mid-construction.
 package c16
 
 import (
+	"context"
+	"errors"
+	"fmt"
 	"math/rand"
+	"net"
+	"os"
+	"os/exec"
+	"path/filepath"
+	"runtime"
+	"sort"
+	"strconv"
+	"strings"
+	"sync"
+	"sync/atomic"
+	"time"
+
+	"github.com/renbou/grpcbridge"
+	"github.com/renbou/grpcbridge/grpcadapter"
+	"github.com/renbou/grpcbridge/routing"
+	"google.golang.org/grpc"
+	"google.golang.org/grpc/codes"
+	"google.golang.org/grpc/credentials/insecure"
+	"google.golang.org/grpc/reflection"
+	"google.golang.org/grpc/status"
+	"google.golang.org/grpc/test/bufconn"
+	"google.golang.org/protobuf/types/known/emptypb"
 )
 
 type Area struct{}
 
 func (Area) Name() string { return "c16" }
 
-func (Area) Exec(input string) string { return "UNIMPLEMENTED" }
+var names = []string{"alpha", "beta", "gamma", "delta"}
 
-func (Area) Gen(r *rand.Rand, tier string, emit func(string)) {}
+var errInjected = errors.New("c16: injected connection construction failure")
+
+const waitMethod = "/c16.Svc/Wait"
+
+const (
+	opTimeout   = 20 * time.Second // an operation of the real code that takes longer is reported as "hang"
+	endTimeout  = 3 * time.Second  // how long an in-flight call may take to end after its connection was removed
+	leakTimeout = 3 * time.Second  // how long background goroutines may take to exit
+)
+
+// ---- goroutine accounting (runtime stack diff; no third-party dependency) ----
+
+type gor struct {
+	id    string
+	stack string
+}
+
+func goroutines() []gor {
+	buf := make([]byte, 1<<20)
+	for {
+		n := runtime.Stack(buf, true)
+		if n < len(buf) {
+			buf = buf[:n]
+			break
+		}
+		buf = make([]byte, 2*len(buf))
+	}
+	var out []gor
+	for _, blk := range strings.Split(string(buf), "\n\n") {
+		blk = strings.TrimSpace(blk)
+		if !strings.HasPrefix(blk, "goroutine ") {
+			continue
+		}
+		rest := blk[len("goroutine "):]
+		sp := strings.IndexByte(rest, ' ')
+		if sp < 0 {
+			continue
+		}
+		out = append(out, gor{id: rest[:sp], stack: blk})
+	}
+	return out
+}
+
+func goroutineIDs() map[string]bool {
+	m := map[string]bool{}
+	for _, g := range goroutines() {
+		m[g.id] = true
+	}
+	return m
+}
+
+// countPollers counts the resolver poller goroutines started since the baseline was taken.
+func countPollers(base map[string]bool) int {
+	n := 0
+	for _, g := range goroutines() {
+		if base[g.id] {
+			continue
+		}
+		// a goroutine that has not run yet shows only its "created by" line
+		if strings.Contains(g.stack, "reflection.(*Resolver).watch") ||
+			strings.Contains(g.stack, "created by github.com/renbou/grpcbridge/reflection.(*ResolverBuilder).Build") {
+			n++
+		}
+	}
+	return n
+}
+
+// leaked returns the goroutines that are neither in the baseline nor part of the harness frame.
+func leaked(base map[string]bool) []gor {
+	var out []gor
+	for _, g := range goroutines() {
+		if base[g.id] || strings.Contains(g.stack, "c16.goroutines") {
+			continue
+		}
+		out = append(out, g)
+	}
+	return out
+}
+
+// patience: the first few waits that run into their time limit get the full limit; once the tree under
+// test has shown that it leaves things behind, later waits are cut short so that a broken tree is
+// reported in minutes instead of hours (a correct tree never exhausts a wait).
+var slowHits int32
+
+func patience(d time.Duration) time.Duration {
+	if atomic.LoadInt32(&slowHits) >= 4 {
+		return d / 60
+	}
+	return d
+}
+
+var warming atomic.Bool // during the warm-up histories nothing is waited for
+
+func waitFor(d time.Duration, cond func() bool) bool {
+	if warming.Load() {
+		return cond()
+	}
+	d = patience(d)
+	ok := waitFor0(d, cond)
+	if !ok {
+		atomic.AddInt32(&slowHits, 1)
+	}
+	return ok
+}
+
+func waitFor0(d time.Duration, cond func() bool) bool {
+	deadline := time.Now().Add(d)
+	for pause := 50 * time.Microsecond; ; pause *= 2 {
+		if cond() {
+			return true
+		}
+		if time.Now().After(deadline) {
+			return false
+		}
+		if pause > 20*time.Millisecond {
+			pause = 20 * time.Millisecond
+		}
+		time.Sleep(pause)
+	}
+}
+
+// ---- environment of one history ----
+
+type call struct {
+	id   int
+	conn grpcadapter.ClientConn
+	st   grpcadapter.ClientStream
+	done chan struct{}
+	code codes.Code
+}
+
+type env struct {
+	lis  *bufconn.Listener
+	srv  *grpc.Server
+	pool *grpcadapter.AdaptedClientPool
+	rr   *grpcbridge.ReflectionRouter
+
+	// set before each Add/New: what the injected constructor does and which name it probes
+	fail      bool
+	probeName string
+	probe     string // result of the mid-construction pool lookup ("" = constructor not invoked)
+
+	handles map[int]grpcadapter.ClientConn
+	calls   []*call
+	ctrls   []*grpcadapter.AdaptedClientPoolController
+	ctrlCon []grpcadapter.ClientConn // the connection each issued controller owns (looked up right after New)
+	live    int                      // successful Adds minus successful Removes, from the return values
+}
+
+var (
+	statMu    sync.Mutex
+	statCodes = map[string]int{} // how in-flight calls ended
+	statOps   = map[string]int{}
+	statLeak  []string
+)
+
+// Extra is copied into the evidence.
+func (Area) Extra() map[string]any {
+	statMu.Lock()
+	defer statMu.Unlock()
+	return map[string]any{"inflight_call_end_codes": statCodes, "op_result_histogram": statOps, "leak_samples": statLeak}
+}
+
+func newEnv(refl bool) *env {
+	e := &env{handles: map[int]grpcadapter.ClientConn{}}
+	e.lis = bufconn.Listen(1 << 16)
+	e.srv = grpc.NewServer(grpc.UnknownServiceHandler(func(_ any, stream grpc.ServerStream) error {
+		if m, _ := grpc.MethodFromServerStream(stream); m != waitMethod {
+			return status.Error(codes.Unimplemented, "c16: unknown method") // e.g. reflection when r0
+		}
+		<-stream.Context().Done() // never answers: the call stays in flight until the client side ends it
+		return status.Error(codes.Canceled, "c16: call ended")
+	}))
+	if refl {
+		reflection.Register(e.srv)
+	}
+	go func() { _ = e.srv.Serve(e.lis) }()
+	return e
+}
+
+func (e *env) connFunc(target string, _ ...grpc.DialOption) (*grpc.ClientConn, error) {
+	// the pool lookup as another goroutine would see it while the connection is being constructed
+	e.probe = e.getKind(e.probeName)
+	if e.fail {
+		return nil, errInjected
+	}
+	return grpc.NewClient("passthrough:///c16-bufnet",
+		grpc.WithContextDialer(func(ctx context.Context, _ string) (net.Conn, error) { return e.lis.DialContext(ctx) }),
+		grpc.WithTransportCredentials(insecure.NewCredentials()))
+}
+
+func isNilConn(c grpcadapter.ClientConn) bool {
+	if c == nil {
+		return true
+	}
+	if ac, ok := c.(*grpcadapter.AdaptedClientConn); ok && ac == nil {
+		return true
+	}
+	return false
+}
+
+func (e *env) getKind(name string) string {
+	c, ok := e.pool.Get(name)
+	switch {
+	case !ok:
+		return "a"
+	case isNilConn(c):
+		return "n"
+	default:
+		return "u"
+	}
+}
+
+func (e *env) get(i int) string {
+	c, ok := e.pool.Get(names[i])
+	switch {
+	case !ok:
+		return "absent"
+	case isNilConn(c):
+		return "nil"
+	default:
+		e.handles[i] = c
+		return "usable"
+	}
+}
+
+func codeTok(err error) string {
+	switch c := status.Code(err); c {
+	case codes.OK:
+		return "ok"
+	case codes.Unavailable:
+		return "unavail"
+	default:
+		return "code" + strconv.Itoa(int(c))
+	}
+}
+
+func (e *env) stream(i int, keep bool) string {
+	h, ok := e.handles[i]
+	if !ok {
+		return "nohandle"
+	}
+	ctx, cancel := context.WithTimeout(context.Background(), 5*time.Second)
+	defer cancel()
+	st, err := h.Stream(ctx, waitMethod)
+	if err != nil {
+		return codeTok(err)
+	}
+	if !keep {
+		st.Close()
+		return "ok"
+	}
+	c := &call{id: len(e.calls), conn: h, st: st, done: make(chan struct{})}
+	e.calls = append(e.calls, c)
+	go func() {
+		err := st.Recv(context.Background(), new(emptypb.Empty))
+		c.code = status.Code(err)
+		close(c.done)
+	}()
+	return "ok"
+}
+
+// waitEnded waits for the in-flight calls on conn to end; returns how many did not.
+func (e *env) waitEnded(conn grpcadapter.ClientConn) int {
+	stuck := 0
+	for _, c := range e.calls {
+		if c.conn != conn {
+			continue
+		}
+		select {
+		case <-c.done:
+		case <-time.After(patience(endTimeout)):
+			stuck++
+			atomic.AddInt32(&slowHits, 1)
+		}
+	}
+	return stuck
+}
+
+func (e *env) alive() string {
+	var ids []string
+	for _, c := range e.calls {
+		select {
+		case <-c.done:
+		default:
+			ids = append(ids, strconv.Itoa(c.id))
+		}
+	}
+	if len(ids) == 0 {
+		return "-"
+	}
+	return strings.Join(ids, ",")
+}
+
+func (e *env) add(i int, mode byte) string {
+	e.fail, e.probeName, e.probe = mode == 'f', names[i], ""
+	var opts []grpcbridge.RouterOption
+	if mode == 'p' {
+		opts = append(opts, grpcbridge.WithDialOpts())
+	}
+	ok, err := e.rr.Add(names[i], "c16-target-"+names[i], opts...)
+	res := ""
+	switch {
+	case ok && err == nil:
+		res = "ok"
+		e.live++
+	case ok || err == nil:
+		res = "inconsistent" // (true, err) or (false, nil): never documented
+	case errors.Is(err, errInjected):
+		res = "conn"
+	case errors.Is(err, grpcadapter.ErrAlreadyDialed):
+		res = "dialed"
+	case errors.Is(err, routing.ErrAlreadyWatching):
+		res = "watch"
+	case strings.Contains(err.Error(), "adding the same target twice"):
+		res = "dup"
+	case strings.Contains(err.Error(), "per-target option overrides"):
+		res = "opts"
+	default:
+		res = "err"
+	}
+	if e.probe != "" {
+		res += "~" + e.probe
+	}
+	return res
+}
+
+func (e *env) remove(i int) string {
+	before, _ := e.pool.Get(names[i])
+	if !e.rr.Remove(names[i]) {
+		return "f"
+	}
+	e.live--
+	stuck := 0
+	if !isNilConn(before) {
+		stuck = e.waitEnded(before)
+	}
+	return "t:" + strconv.Itoa(stuck)
+}
+
+func (e *env) poolNew(i int, mode byte) string {
+	e.fail, e.probeName, e.probe = mode == 'f', names[i], ""
+	ctrl, err := e.pool.New(names[i], "c16-target-"+names[i])
+	res := ""
+	switch {
+	case err == nil && ctrl != nil:
+		res = "ok"
+		own, _ := e.pool.Get(names[i])
+		e.ctrls = append(e.ctrls, ctrl)
+		e.ctrlCon = append(e.ctrlCon, own)
+	case err == nil:
+		res = "inconsistent"
+	case errors.Is(err, errInjected):
+		res = "conn"
+	case errors.Is(err, grpcadapter.ErrAlreadyDialed):
+		res = "dialed"
+	default:
+		res = "err"
+	}
+	if e.probe != "" {
+		res += "~" + e.probe
+	}
+	return res
+}
+
+func (e *env) ctrlClose(k int) string {
+	if k >= len(e.ctrls) {
+		return "nosuch"
+	}
+	conn := e.ctrlCon[k]
+	e.ctrls[k].Close()
+	stuck := 0
+	if !isNilConn(conn) {
+		stuck = e.waitEnded(conn)
+	}
+	return "closed:" + strconv.Itoa(stuck)
+}
+
+// guarded runs one operation of the real code; a panic becomes "panic", no return within opTimeout becomes "hang".
+func guarded(f func() string) string {
+	ch := make(chan string, 1)
+	go func() {
+		defer func() {
+			if r := recover(); r != nil {
+				ch <- "panic"
+			}
+		}()
+		ch <- f()
+	}()
+	select {
+	case s := <-ch:
+		return s
+	case <-time.After(opTimeout):
+		return "hang"
+	}
+}
+
+var warm sync.Once
+
+// contaminated: a case left goroutines behind (or hung). Goroutines leaked by one case keep spawning others
+// (pollers re-poll), which would be charged to later, innocent cases; from then on every case runs in a
+// fresh child process so that each output stays a function of its input line alone.
+var contaminated atomic.Bool
+
+func execInChild(input string) (string, bool) {
+	exe, err := os.Executable()
+	if err != nil {
+		return "", false
+	}
+	dir, err := os.MkdirTemp("", "c16child")
+	if err != nil {
+		return "", false
+	}
+	defer os.RemoveAll(dir)
+	rp := filepath.Join(dir, "replay.txt")
+	if os.WriteFile(rp, []byte(input+"\n"), 0o644) != nil {
+		return "", false
+	}
+	ctx, cancel := context.WithTimeout(context.Background(), 3*time.Minute)
+	defer cancel()
+	cmd := exec.CommandContext(ctx, exe, "-area", "c16", "-replay", rp, "-out", filepath.Join(dir, "out"))
+	// children only exist once the tree has shown that it leaves things behind: they wait briefly
+	cmd.Env = append(os.Environ(), "C16_CHILD=1", "C16_IMPATIENT=1")
+	if cmd.Run() != nil {
+		return "", false
+	}
+	b, err := os.ReadFile(filepath.Join(dir, "out", "cases.txt"))
+	if err != nil {
+		return "", false
+	}
+	line := strings.TrimRight(string(b), "\n")
+	i := strings.Index(line, " => ")
+	if i < 0 || strings.Contains(line, "\n") {
+		return "", false
+	}
+	return line[i+4:], true
+}
+
+func (a Area) Exec(input string) string {
+	if os.Getenv("C16_CHILD") == "" && contaminated.Load() {
+		if out, ok := execInChild(input); ok {
+			return out
+		}
+	}
+	warm.Do(func() { // start lazily created process-wide goroutines before any baseline is taken
+		if os.Getenv("C16_IMPATIENT") != "" {
+			atomic.StoreInt32(&slowHits, 4)
+		}
+		base0 := goroutineIDs()
+		warming.Store(true)
+		execLine("rr p0r1 A0o G0 S0 R0")
+		execLine("pool p0r0 N0o G0 S0 K0")
+		warming.Store(false)
+		// a tree that leaks already during the warm-up contaminates this process from the start
+		if !waitFor(leakTimeout, func() bool { return len(leaked(base0)) == 0 }) {
+			if os.Getenv("C16_DEBUG") != "" {
+				for _, g := range leaked(base0) {
+					fmt.Fprintln(os.Stderr, "after warm-up:", g.stack)
+				}
+			}
+			contaminated.Store(true)
+		}
+	})
+	return execLine(input)
+}
+
+// execConc: "conc <seed> <goroutines> <ops>" — goroutines use ONE real pool concurrently (New with succeeding and
+// failing constructors, Get, Close of their own controllers, over two names). Whatever the schedule, the counts
+// reported must all be zero: nil = lookups that were present-but-missing, panic = first Close of an own controller
+// panicked, incons = after quiescence a name held by some goroutine is not usable / a name held by nobody is,
+// stuck = after closing everything a name cannot be dialed again, leak = goroutines left.
+func execConc(f []string) string {
+	if len(f) != 4 {
+		return "BADOP"
+	}
+	seed, e1 := strconv.ParseInt(f[1], 10, 64)
+	ng, e2 := strconv.Atoi(f[2])
+	nops, e3 := strconv.Atoi(f[3])
+	if e1 != nil || e2 != nil || e3 != nil || ng < 1 || ng > 64 || nops < 1 {
+		return "BADOP"
+	}
+	base := goroutineIDs()
+	e := newEnv(false)
+	var nilGets, panics int32
+	lookup := func(name string) (grpcadapter.ClientConn, bool) {
+		c, ok := e.pool.Get(name)
+		if ok && isNilConn(c) {
+			atomic.AddInt32(&nilGets, 1)
+			return nil, false
+		}
+		return c, ok
+	}
+	e.pool = grpcadapter.NewAdaptedClientPool(grpcadapter.AdaptedClientPoolOpts{
+		NewClientFunc: func(target string, _ ...grpc.DialOption) (*grpc.ClientConn, error) {
+			mode, name, _ := strings.Cut(target, ":")
+			lookup(name)
+			runtime.Gosched()
+			if mode == "fail" {
+				return nil, errInjected
+			}
+			return grpc.NewClient("passthrough:///c16-bufnet",
+				grpc.WithContextDialer(func(ctx context.Context, _ string) (net.Conn, error) { return e.lis.DialContext(ctx) }),
+				grpc.WithTransportCredentials(insecure.NewCredentials()))
+		},
+	})
+	cnames := names[:2]
+	held := make([]map[string]*grpcadapter.AdaptedClientPoolController, ng)
+	var wg sync.WaitGroup
+	for gi := 0; gi < ng; gi++ {
+		held[gi] = map[string]*grpcadapter.AdaptedClientPoolController{}
+		wg.Add(1)
+		go func(gi int) {
+			defer wg.Done()
+			r := rand.New(rand.NewSource(seed*1000 + int64(gi)))
+			mine := held[gi]
+			for i := 0; i < nops; i++ {
+				name := cnames[r.Intn(len(cnames))]
+				switch x := r.Intn(10); {
+				case x < 4:
+					mode := "ok"
+					if r.Intn(3) == 0 {
+						mode = "fail"
+					}
+					if _, have := mine[name]; have {
+						continue
+					}
+					if c, err := e.pool.New(name, mode+":"+name); err == nil {
+						mine[name] = c
+					}
+				case x < 8:
+					lookup(name)
+				default:
+					if c, have := mine[name]; have {
+						func() {
+							defer func() {
+								if recover() != nil {
+									atomic.AddInt32(&panics, 1)
+								}
+							}()
+							c.Close()
+						}()
+						delete(mine, name)
+					}
+				}
+				if r.Intn(4) == 0 {
+					runtime.Gosched()
+				}
+			}
+		}(gi)
+	}
+	done := make(chan struct{})
+	go func() { wg.Wait(); close(done) }()
+	select {
+	case <-done:
+	case <-time.After(opTimeout):
+		contaminated.Store(true)
+		return "hang aborted"
+	}
+	incons, stuck := 0, 0
+	for _, name := range cnames {
+		holders := 0
+		for gi := range held {
+			if _, ok := held[gi][name]; ok {
+				holders++
+			}
+		}
+		_, ok := lookup(name)
+		if holders > 1 || (holders == 1) != ok {
+			incons++
+		}
+	}
+	for gi := range held {
+		for _, c := range held[gi] {
+			func() {
+				defer func() {
+					if recover() != nil {
+						atomic.AddInt32(&panics, 1)
+					}
+				}()
+				c.Close()
+			}()
+		}
+	}
+	for _, name := range cnames {
+		if _, ok := lookup(name); ok {
+			incons++
+		}
+		c, err := e.pool.New(name, "ok:"+name)
+		if err != nil {
+			stuck++
+			continue
+		}
+		c.Close()
+	}
+	e.srv.Stop()
+	_ = e.lis.Close()
+	var left []gor
+	waitFor(leakTimeout, func() bool { left = leaked(base); return len(left) == 0 })
+	if len(left) > 0 {
+		contaminated.Store(true)
+	}
+	return fmt.Sprintf("nil=%d panic=%d incons=%d stuck=%d leak=%d", nilGets, panics, incons, stuck, len(left))
+}
+
+func execLine(input string) string {
+	f := strings.Fields(input)
+	if len(f) > 0 && f[0] == "conc" {
+		return execConc(f)
+	}
+	if len(f) < 2 || (f[0] != "rr" && f[0] != "pool") || len(f[1]) != 4 {
+		return "BADOP"
+	}
+	isRouter := f[0] == "rr"
+	poll, refl := f[1][1] == '1', f[1][3] == '1'
+
+	base := goroutineIDs()
+	e := newEnv(refl)
+	if isRouter {
+		opts := []grpcbridge.RouterOption{grpcbridge.WithConnFunc(e.connFunc)}
+		if poll {
+			opts = append(opts, grpcbridge.WithReflectionPollInterval(time.Second))
+		} else {
+			opts = append(opts, grpcbridge.WithDisabledReflectionPolling())
+		}
+		e.rr = grpcbridge.NewReflectionRouter(opts...)
+		e.pool = e.rr.VerifConnPool()
+	} else {
+		e.pool = grpcadapter.NewAdaptedClientPool(grpcadapter.AdaptedClientPoolOpts{NewClientFunc: e.connFunc})
+	}
+
+	var out []string
+	hung := false
+	for _, op := range f[2:] {
+		if len(op) < 2 {
+			return "BADOP"
+		}
+		idx, err := strconv.Atoi(strings.TrimRight(op[1:], "ofp"))
+		if err != nil || (op[0] != 'K' && idx >= len(names)) {
+			return "BADOP"
+		}
+		mode := op[len(op)-1]
+		var tok string
+		switch {
+		case op[0] == 'A' && isRouter:
+			tok = guarded(func() string { return e.add(idx, mode) })
+		case op[0] == 'R' && isRouter:
+			tok = guarded(func() string { return e.remove(idx) })
+		case op[0] == 'N' && !isRouter:
+			tok = guarded(func() string { return e.poolNew(idx, mode) })
+		case op[0] == 'K' && !isRouter:
+			tok = guarded(func() string { return e.ctrlClose(idx) })
+		case op[0] == 'G':
+			tok = guarded(func() string { return e.get(idx) })
+		case op[0] == 'S':
+			tok = guarded(func() string { return e.stream(idx, false) })
+		case op[0] == 'C':
+			tok = guarded(func() string { return e.stream(idx, true) })
+		default:
+			return "BADOP"
+		}
+		out = append(out, tok)
+		statMu.Lock()
+		statOps[string(op[0])+":"+strings.SplitN(tok, ":", 2)[0]]++
+		statMu.Unlock()
+		if tok == "hang" {
+			hung = true
+			break
+		}
+	}
+	if hung {
+		contaminated.Store(true)
+		// the real code is stuck inside an operation: nothing further can be observed safely
+		go e.srv.Stop()
+		return strings.Join(append(out, "aborted"), " ")
+	}
+
+	// observations after the history
+	if isRouter {
+		waitFor(leakTimeout, func() bool { return countPollers(base) <= e.live })
+		out = append(out, fmt.Sprintf("w=%d", countPollers(base)), fmt.Sprintf("n=%d", e.rr.VerifTargetCount()))
+	}
+	out = append(out, "alive="+e.alive())
+
+	// teardown through the operations under test: remove every target / close every controller
+	tearOK := guarded(func() string {
+		if isRouter {
+			for i := range names {
+				e.remove(i)
+			}
+		} else {
+			for k := range e.ctrls {
+				func() {
+					defer func() { _ = recover() }() // closed before by the history
+					e.ctrlClose(k)
+				}()
+			}
+		}
+		return "ok"
+	})
+	stuckAtEnd := 0
+	for _, c := range e.calls {
+		select {
+		case <-c.done:
+		default:
+			// a call still alive after every target is gone: on a connection that was never closed
+			stuckAtEnd++
+			c.st.Close()
+			<-c.done
+		}
+		statMu.Lock()
+		statCodes[c.code.String()]++
+		statMu.Unlock()
+	}
+	e.srv.Stop()
+	_ = e.lis.Close()
+	var left []gor
+	waitFor(leakTimeout, func() bool { left = leaked(base); return len(left) == 0 })
+	if (len(left) > 0 || tearOK != "ok") && !warming.Load() {
+		contaminated.Store(true)
+	}
+	if len(left) > 0 {
+		statMu.Lock()
+		if len(statLeak) < 3 {
+			lines := strings.Split(left[0].stack, "\n")
+			if len(lines) > 6 {
+				lines = lines[:6]
+			}
+			statLeak = append(statLeak, input+" :: "+strings.Join(lines, " | "))
+		}
+		statMu.Unlock()
+	}
+	if tearOK != "ok" {
+		out = append(out, "teardown="+tearOK)
+	}
+	out = append(out, fmt.Sprintf("leak=%d", len(left)+stuckAtEnd))
+	return strings.Join(out, " ")
+}
+
+// ---- generator ----
+
+func (Area) Gen(r *rand.Rand, tier string, emit func(string)) {
+	cfgs := []string{"p0r1", "p0r0", "p1r1", "p1r0"}
+	line := func(kind, cfg string, ops []string) { emit(kind + " " + cfg + " " + strings.Join(ops, " ")) }
+
+	// 1. hand-written edge cases (the D17 witness first)
+	for _, h := range []string{
+		"A0f A0o G0", "A0f G0", "A0f A0f A0o R0 A0o", "A0o R0 A0o R0 A0o", "A0o A0o A0f A0p R0 R0",
+		"A0o G0 C0 C0 R0 S0 G0", "A0o G0 R0 A0o S0 G0 S0", "A0o A1o G0 G1 C0 C1 R0 S0 S1", "A0p A0o A0p",
+		"A0o A1f A2o R1 A1o R0 R2 R1", "R0 G0 S0 C0", "A0o G0 C0 A1o G1 C1 R1 R0",
+	} {
+		for _, c := range cfgs {
+			line("rr", c, strings.Fields(h))
+		}
+	}
+	for _, h := range []string{
+		"N0f N0o G0", "N0f G0", "N0o K0 N0o K1", "N0o N0o K0 K0", "N0o G0 C0 K0 S0 G0", "N0o G0 K0 N0o S0 G0 S0",
+		"N0o N1f N1o G1 C1 K1 K0", "K0 G0 S0", "N0o K0 K0", "N0f N0f N0o K0 N0f N0o",
+	} {
+		line("pool", "p0r0", strings.Fields(h))
+	}
+
+	// 2. every history up to a small length over a small alphabet
+	rrAlpha := []string{"A0o", "A0f", "R0", "G0", "S0", "A1o", "R1"}
+	plAlpha := []string{"N0o", "N0f", "K0", "K1", "G0", "S0"}
+	maxLen := 3
+	if tier == "thorough" {
+		maxLen = 4
+	}
+	var rec func(kind, cfg string, alpha, prefix []string)
+	rec = func(kind, cfg string, alpha, prefix []string) {
+		if len(prefix) > 0 {
+			line(kind, cfg, prefix)
+		}
+		if len(prefix) == maxLen {
+			return
+		}
+		for _, a := range alpha {
+			rec(kind, cfg, alpha, append(append([]string{}, prefix...), a))
+		}
+	}
+	rec("rr", "p0r1", rrAlpha, nil)
+	rec("pool", "p0r0", plAlpha, nil)
+
+	// 2b. concurrent use of one real pool (all counts must be zero whatever the schedule)
+	nconc := 40
+	if tier == "thorough" {
+		nconc = 1000
+	}
+	for k := 0; k < nconc; k++ {
+		emit(fmt.Sprintf("conc %d %d %d", r.Intn(1_000_000), 2+r.Intn(7), 20+r.Intn(200)))
+	}
+
+	// 3. seeded random histories, biased towards re-adding after failures/removals with calls in flight
+	n, maxOps, nNames := 1200, 12, 3
+	if tier == "thorough" {
+		n, maxOps, nNames = 15000, 30, 4
+	}
+	for k := 0; k < n; k++ {
+		cfg := common_pick(r, cfgs)
+		router := r.Intn(4) != 0
+		l := 1 + r.Intn(maxOps)
+		var ops []string
+		present := map[int]bool{}
+		issued := 0
+		var looked []int
+		for j := 0; j < l; j++ {
+			i := r.Intn(nNames)
+			x := r.Intn(100)
+			if len(present) == 0 && r.Intn(3) != 0 {
+				x = r.Intn(30) // nothing there yet: mostly start by adding
+			}
+			pickPresent := func() {
+				if len(present) > 0 && r.Intn(4) != 0 {
+					keys := make([]int, 0, len(present))
+					for k := range present {
+						keys = append(keys, k)
+					}
+					sort.Ints(keys)
+					i = keys[r.Intn(len(keys))]
+				}
+			}
+			switch {
+			case x < 30:
+				m := "o"
+				if y := r.Intn(10); y < 3 {
+					m = "f"
+				} else if y == 3 && router {
+					m = "p"
+				}
+				if router {
+					ops = append(ops, fmt.Sprintf("A%d%s", i, m))
+				} else {
+					ops = append(ops, fmt.Sprintf("N%d%s", i, m))
+					if m == "o" && !present[i] {
+						issued++
+					}
+				}
+				if m == "o" {
+					present[i] = true
+				}
+			case x < 50:
+				if router {
+					if len(present) > 0 && r.Intn(4) != 0 { // usually remove something that is there
+						keys := make([]int, 0, len(present))
+						for k := range present {
+							keys = append(keys, k)
+						}
+						sort.Ints(keys)
+						i = keys[r.Intn(len(keys))]
+					}
+					ops = append(ops, fmt.Sprintf("R%d", i))
+					delete(present, i)
+				} else {
+					kk := r.Intn(issued + 1)
+					ops = append(ops, fmt.Sprintf("K%d", kk))
+					if r.Intn(3) == 0 {
+						present = map[int]bool{} // lose track on purpose: some double closes and stale New
+					}
+				}
+			case x < 62:
+				if len(looked) > 0 && r.Intn(4) == 0 { // sometimes names that were looked up before
+					i = looked[r.Intn(len(looked))]
+				}
+				if len(present) > 0 && r.Intn(3) != 0 { // and mostly names that are (believed) present
+					keys := make([]int, 0, len(present))
+					for k := range present {
+						keys = append(keys, k)
+					}
+					sort.Ints(keys)
+					i = keys[r.Intn(len(keys))]
+				}
+				ops = append(ops, fmt.Sprintf("G%d", i))
+				if present[i] {
+					looked = append(looked, i)
+				}
+			case x < 82:
+				if len(looked) > 0 && r.Intn(8) != 0 { // mostly on a kept connection (possibly of a removed target)
+					i = looked[r.Intn(len(looked))]
+				}
+				ops = append(ops, fmt.Sprintf("S%d", i))
+			case x < 90:
+				if len(looked) > 0 && r.Intn(8) != 0 {
+					i = looked[r.Intn(len(looked))]
+				}
+				ops = append(ops, fmt.Sprintf("C%d", i))
+			default:
+				pickPresent()
+				ops = append(ops, fmt.Sprintf("G%d", i), fmt.Sprintf("C%d", i))
+				if present[i] {
+					looked = append(looked, i)
+				}
+			}
+		}
+		if router {
+			line("rr", cfg, ops)
+		} else {
+			line("pool", cfg, ops)
+		}
+	}
+}
+
+func common_pick(r *rand.Rand, xs []string) string { return xs[r.Intn(len(xs))] }
